@@ -197,8 +197,8 @@ theorem foldlM_append' {α β : Type} (f : β → α → Option β) (b : β) (l1
   simp [List.foldlM_append]
 
 /-- a blank after `v`: the pending word is flushed, the tokens of `v` are on the stack. -/
-theorem tok_after_ws (v : List Char) (ts : List LTok) (h : litToks v = some ts) (w : Char) (hw : isWs w = true) :
-    (v ++ [w]).foldlM tokStep ([], []) = some ([], ts.reverse) := by
+theorem tok_after_ws (v : List Char) (ts : List LTok) (h : litToks v = some ts) :
+    (v ++ [' ']).foldlM tokStep ([], []) = some ([], ts.reverse) := by
   unfold litToks at h
   rw [foldlM_append']
   cases hst : v.foldlM tokStep ([], []) with
@@ -207,17 +207,15 @@ theorem tok_after_ws (v : List Char) (ts : List LTok) (h : litToks v = some ts) 
     rw [hst] at h
     simp only [Option.bind_some, Option.map_eq_some_iff] at h
     obtain ⟨out, hout, rfl⟩ := h
-    have hd : isLitDelim w = true := by simp [isLitDelim, hw]
-    have hdt : delimTok w = [] := by
-      simp only [isWs, Bool.or_eq_true, decide_eq_true_eq] at hw
-      rcases hw with ((rfl | rfl) | rfl) | rfl <;> decide
+    have hd : isLitDelim ' ' = true := by decide
+    have hdt : delimTok ' ' = [] := by decide
     simp [List.foldlM, tokStep, hd, hout, hdt]
 
 /-- from any state, more characters only add tokens (or fail); a pending word or a non-blank character adds at
     least one. -/
 theorem tok_grows (x : List Char) : ∀ (st : TokSt) (res : List LTok),
     (x.foldlM tokStep st).bind tokFlush = some res →
-    ∃ more, res = more ++ st.2 ∧ ((st.1 ≠ [] ∨ ∃ c ∈ x, isWs c = false) → more ≠ []) ∧
+    ∃ more, res = more ++ st.2 ∧ ((st.1 ≠ [] ∨ ∃ c ∈ x, isWs c = false) → ∃ t ∈ more, t ≠ LTok.nl) ∧
       (',' ∉ x → LTok.comma ∉ more) := by
   induction x with
   | nil =>
@@ -234,7 +232,7 @@ theorem tok_grows (x : List Char) : ∀ (st : TokSt) (res : List LTok),
     · rcases hp : pyNum st.1.reverse with _ | me
       · rw [hp] at h; cases h
       · rw [hp] at h; cases h
-        exact ⟨[.num me.1 me.2], rfl, fun _ => by simp, fun _ => by simp⟩
+        exact ⟨[.num me.1 me.2], rfl, fun _ => ⟨_, List.mem_cons_self .., by simp⟩, fun _ => by simp⟩
   | cons c x ih =>
     intro st res h
     simp only [List.foldlM_cons, Option.bind_eq_bind] at h
@@ -254,13 +252,14 @@ theorem tok_grows (x : List Char) : ∀ (st : TokSt) (res : List LTok),
           simp only [Option.map_some, Option.some.injEq] at hs
           subst hs
           -- out = flush of st: st.2 possibly with one more token
-          have hout : ∃ m0, out = m0 ++ st.2 ∧ (st.1 ≠ [] → m0 ≠ []) ∧ LTok.comma ∉ m0 := by
+          have hout : ∃ m0, out = m0 ++ st.2 ∧ (st.1 ≠ [] → ∃ t ∈ m0, t ≠ LTok.nl) ∧ LTok.comma ∉ m0 := by
             unfold tokFlush at hf
             split at hf
             · cases hf; exact ⟨[], rfl, fun h => by simp_all, by simp⟩
             · rcases hp : pyNum st.1.reverse with _ | me
               · rw [hp] at hf; cases hf
-              · rw [hp] at hf; cases hf; exact ⟨[.num me.1 me.2], rfl, fun _ => by simp, by simp⟩
+              · rw [hp] at hf; cases hf
+                exact ⟨[.num me.1 me.2], rfl, fun _ => ⟨_, List.mem_cons_self .., by simp⟩, by simp⟩
           obtain ⟨m0, rfl, hm0, hm0c⟩ := hout
           refine ⟨more ++ delimTok c ++ m0, by simp [hres], ?_, ?_⟩
           rotate_left
@@ -272,16 +271,17 @@ theorem tok_grows (x : List Char) : ∀ (st : TokSt) (res : List LTok),
               split_ifs <;> simp_all
             simp [h1, h2, hm0c]
           rintro (h1 | ⟨c', hc', hcw⟩)
-          · have := hm0 h1
-            simp [this]
+          · obtain ⟨t, ht, hn⟩ := hm0 h1
+            exact ⟨t, by simp [ht], hn⟩
           · rcases List.mem_cons.mp hc' with rfl | hc'
-            · -- c itself is a non-blank delimiter: it gives a token
-              have : delimTok c' ≠ [] := by
+            · -- c itself is a non-blank delimiter: it gives a token that is not a line break
+              have : ∃ t ∈ delimTok c', t ≠ LTok.nl := by
                 simp only [isLitDelim, hcw, Bool.false_or, Bool.or_eq_true, decide_eq_true_eq] at hd
-                rcases hd with (((rfl | rfl) | rfl) | rfl) | rfl <;> decide
-              simp [this]
-            · have := hmore (Or.inr ⟨c', hc', hcw⟩)
-              simp [this]
+                rcases hd with (((rfl | rfl) | rfl) | rfl) | rfl <;> exact ⟨_, List.mem_cons_self .., by simp⟩
+              obtain ⟨t, ht, hn⟩ := this
+              exact ⟨t, by simp [ht], hn⟩
+            · obtain ⟨t, ht, hn⟩ := hmore (Or.inr ⟨c', hc', hcw⟩)
+              exact ⟨t, by simp [ht], hn⟩
       · cases hs
         refine ⟨more, hres, ?_, fun hcx => hnc (fun h => hcx (List.mem_cons_of_mem _ h))⟩
         intro _
@@ -291,10 +291,10 @@ theorem tok_grows (x : List Char) : ∀ (st : TokSt) (res : List LTok),
 theorem litToks_extend (v x : List Char) (ts : List LTok) (h : litToks v = some ts) (hx : ∃ c ∈ x, isWs c = false)
     (hcomma : ',' ∉ x)
     (res : List LTok) (hr : litToks (v ++ ' ' :: x) = some res) :
-    ∃ more, more ≠ [] ∧ LTok.comma ∉ more ∧ res = ts ++ more := by
+    ∃ more, (∃ t ∈ more, t ≠ LTok.nl) ∧ LTok.comma ∉ more ∧ res = ts ++ more := by
   have e : v ++ ' ' :: x = (v ++ [' ']) ++ x := by simp
   unfold litToks at hr
-  rw [e, foldlM_append', tok_after_ws v ts h ' ' (by decide)] at hr
+  rw [e, foldlM_append', tok_after_ws v ts h] at hr
   simp only [Option.bind_some] at hr
   cases hst : x.foldlM tokStep ([], ts.reverse) with
   | none => rw [hst] at hr; cases hr
@@ -303,71 +303,92 @@ theorem litToks_extend (v x : List Char) (ts : List LTok) (h : litToks v = some 
     simp only [Option.bind_some, Option.map_eq_some_iff] at hr
     obtain ⟨out, hout, rfl⟩ := hr
     obtain ⟨more, hres, hmore, hnc⟩ := tok_grows x ([], ts.reverse) out (by rw [hst]; exact hout)
-    refine ⟨more.reverse, by simpa using hmore (Or.inr hx), by simpa using hnc hcomma, ?_⟩
+    refine ⟨more.reverse, ?_, by simpa using hnc hcomma, ?_⟩
+    · obtain ⟨t, ht, hn⟩ := hmore (Or.inr hx)
+      exact ⟨t, by simpa using ht, hn⟩
     simp [hres]
 
 /-! ### a complete value followed by tokens other than a comma is refused -/
 
-theorem parStep_popped (x : Lit) (t : LTok) : parStep ([], some x) t = none := by
-  cases t <;> rfl
+/-- once the expression is closed (`([], some x)`: a line break outside brackets), only line breaks may follow. -/
+theorem foldlM_popped (ts : List LTok) (x : Lit) (h : ∃ t ∈ ts, t ≠ LTok.nl) :
+    ts.foldlM parStep ([], some x) = none := by
+  induction ts with
+  | nil => obtain ⟨t, ht, _⟩ := h; cases ht
+  | cons t ts ih =>
+    simp only [List.foldlM_cons]
+    cases t with
+    | nl =>
+      have : parStep ([], some x) .nl = some ([], some x) := rfl
+      rw [this]
+      simp only [Option.bind_eq_bind, Option.bind_some]
+      apply ih
+      obtain ⟨t, ht, hn⟩ := h
+      rcases List.mem_cons.mp ht with rfl | ht
+      · exact absurd rfl hn
+      · exact ⟨t, ht, hn⟩
+    | num m e => rfl
+    | lopen p => rfl
+    | lclose q => rfl
+    | comma => rfl
 
-theorem foldlM_popped (x : Lit) (ts : List LTok) (hne : ts ≠ []) : ts.foldlM parStep ([], some x) = none := by
-  cases ts with
-  | nil => exact absurd rfl hne
-  | cons t ts => simp [List.foldlM_cons, parStep_popped]
-
-/-- after a text that ended on an item, tokens that do not start with a comma lead nowhere. -/
-theorem par_extend (fr : Frame) (x : Lit) (more : List LTok) (hne : more ≠ []) (hc : LTok.comma ∉ more) :
+/-- after a text that ended on an item, tokens without a comma (and not only line breaks) lead nowhere. -/
+theorem par_extend (more : List LTok) (x : Lit) (hne : ∃ t ∈ more, t ≠ LTok.nl) (hc : LTok.comma ∉ more) (fr : Frame) :
     parEnd (more.foldlM parStep ([fr], some x)) = none := by
   cases more with
-  | nil => exact absurd rfl hne
+  | nil => obtain ⟨t, ht, _⟩ := hne; cases ht
   | cons t more =>
     simp only [List.foldlM_cons]
     cases t with
     | num m e => rfl
     | lopen p => rfl
+    | lclose q => rfl
     | comma => exact absurd (List.mem_cons_self ..) hc
-    | lclose q =>
-      cases hs : parStep ([fr], some x) (.lclose q) with
+    | nl =>
+      have hrest : ∃ t ∈ more, t ≠ LTok.nl := by
+        obtain ⟨t, ht, hn⟩ := hne
+        rcases List.mem_cons.mp ht with rfl | ht
+        · exact absurd rfl hn
+        · exact ⟨t, ht, hn⟩
+      have hstep : parStep ([fr], some x) .nl = (parFinish fr (some x)).map fun r => ([], some r.1) := by
+        simp [parStep]
+      rw [hstep]
+      cases hfin : parFinish fr (some x) with
       | none => rfl
-      | some st =>
-        -- the implicit group is closed: the stack is empty from now on
-        have hst : ∃ y, st = ([], some y) := by
-          unfold parStep at hs
-          simp only at hs
-          split at hs
-          · cases hs
-          · split at hs <;> (cases hs; exact ⟨_, rfl⟩)
-        obtain ⟨y, rfl⟩ := hst
-        simp only [Option.bind_eq_bind, Option.bind_some]
-        cases more with
-        | nil => rfl
-        | cons t' more' => rw [foldlM_popped y (t' :: more') (by simp)]; rfl
+      | some r =>
+        simp only [Option.map_some, Option.bind_eq_bind, Option.bind_some]
+        rw [foldlM_popped more r.1 hrest]
+        rfl
 
-/-- the final parser state of a text that ended on an item: only the implicit group is open and a value is waiting. -/
+/-- the final parser state of a text that ended on an item: a value is waiting in the implicit group, or the
+    expression was closed by a line break. -/
 theorem parEnd_item (st : Option ParSt) (lit : Lit) (h : parEnd st = some (lit, true)) :
-    ∃ fr x, st = some ([fr], some x) := by
+    (∃ fr x, st = some ([fr], some x)) ∨ (∃ x, st = some ([], some x)) := by
   cases st with
   | none => cases h
   | some s =>
     obtain ⟨stack, cur⟩ := s
     cases stack with
-    | nil => cases h
+    | nil =>
+      cases cur with
+      | none => cases h
+      | some x => exact Or.inr ⟨x, rfl⟩
     | cons fr stack =>
       cases stack with
       | cons _ _ => cases h
       | nil =>
         cases cur with
-        | some x => exact ⟨fr, x, rfl⟩
+        | some x => exact Or.inl ⟨fr, x, rfl⟩
         | none =>
           exfalso
-          unfold parEnd at h
-          simp only at h
-          split at h
-          · split at h
-            · cases h
-            · cases h
-          · cases h
+          have h' : parFinish fr none = some (lit, true) := h
+          unfold parFinish at h'
+          simp only at h'
+          split at h'
+          · split at h'
+            · cases h'
+            · cases h'
+          · cases h'
 
 theorem readLit_extend (v x : List Char) (lit : Lit) (h : readLitCore v = some (lit, true))
     (hx : ∃ c ∈ x, isWs c = false) (hcomma : ',' ∉ x) : readLit (v ++ ' ' :: x) = none := by
@@ -384,11 +405,15 @@ theorem readLit_extend (v x : List Char) (lit : Lit) (h : readLitCore v = some (
       obtain ⟨more, hne, hnc, rfl⟩ := litToks_extend v x ts hts hx hcomma res hr
       simp only [Option.bind_some]
       rw [foldlM_append']
-      obtain ⟨fr, y, hst⟩ := parEnd_item _ lit h
-      rw [hst]
-      simp only [Option.bind_some]
-      rw [par_extend fr y more hne hnc]
-      rfl
+      rcases parEnd_item _ lit h with ⟨fr, y, hst⟩ | ⟨y, hst⟩
+      · rw [hst]
+        simp only [Option.bind_some]
+        rw [par_extend more y hne hnc fr]
+        rfl
+      · rw [hst]
+        simp only [Option.bind_some]
+        rw [foldlM_popped more y hne]
+        rfl
 
 /-! ### strip on a value without blanks at its ends -/
 
